@@ -5,6 +5,7 @@
    real 4- and 7-validator networks (Harness/C19.v).  Liveness: only the round-progress lemmas below.
    Statements only; every proof is [exact lemma]. *)
 From NG Require Import Common.Tactics Codec.Multisig Consensus.Dbft Consensus.DbftProofs Consensus.Witness Consensus.WitnessProofs Consensus.Recovery Consensus.RecoveryProofs.
+From NG Require Consensus.Packing.
 Close Scope N_scope.
 
 (* agreement: no two honest validators accept different blocks at a height — for every number of validators n and bound f
@@ -149,6 +150,28 @@ Proof.
   - intros q E. simpl in E. repeat (destruct E as [E|E]; [subst q; simpl; repeat split; congruence|]). contradiction.
   - intros q E. simpl in E. repeat (destruct E as [E|E]; [subst q; simpl; repeat split; congruence|]). contradiction.
 Qed.
+
+
+(* ---------- full blocks (added after the third independent mutation round) ---------- *)
+
+(* What the primary proposes — its verified transactions cut to MaxTransactionsPerBlock and then at the first transaction
+   with which the running size (from the empty block with the default witness) or the running system fee EXCEEDS its limit
+   (core.ApplyPolicyToTxSet) — passes the backup's three guards (verifyRequest: count <= MaxTransactionsPerBlock;
+   verifyBlock: size <= MaxBlockSize, fee <= MaxBlockSystemFee), also when it sits exactly at a limit; the backup measures
+   the empty block no larger than the primary does.  Abstract limits; the bounds of the packed block over the real size
+   function are C07's packing theorem (Properties/C07.v, C07_pack_valid). *)
+Theorem C19_primary_proposal_passes_backup_checks :
+  forall (max_tx : nat) (max_size max_fee hdr_p hdr_b : N) (l : list Packing.tx),
+  (hdr_b <= hdr_p)%N -> (hdr_p <= max_size)%N ->
+  Packing.backup_accepts max_tx max_size max_fee hdr_b (Packing.pack max_tx max_size max_fee hdr_p l) = true.
+Proof. exact Packing.primary_proposal_passes_backup_checks. Qed.
+Print Assumptions C19_primary_proposal_passes_backup_checks.
+
+Example C19_pack_at_the_limits :
+  let t := Packing.mkTx 100%N 7%N in
+  Packing.pack 3 350%N 21%N 50%N [t; t; t; t] = [t; t; t] /\ Packing.backup_accepts 3 350%N 21%N 50%N [t; t; t] = true /\
+  Packing.pack 3 350%N 20%N 50%N [t; t; t; t] = [t; t] /\ Packing.backup_accepts 3 349%N 21%N 50%N [t; t; t] = false.
+Proof. exact Packing.pack_at_the_limits. Qed.
 
 (* NOT proved (the property's liveness clause in full): under eventual synchrony with all validators honest, every height is
    eventually decided and every pending valid transaction is eventually included.  Kept visible as a statement only. *)
